@@ -54,7 +54,10 @@ func samePtr(a, b *Ptr) bool {
 		return false
 	}
 	for i := range a.Path {
-		if a.Path[i].Idx != b.Path[i].Idx || a.Path[i].Sym != b.Path[i].Sym {
+		if a.Path[i].Idx != b.Path[i].Idx {
+			return false
+		}
+		if sa, sb := a.Path[i].Sym, b.Path[i].Sym; sa != sb && (sa == nil || sb == nil || !term.Same(sa, sb)) {
 			return false
 		}
 	}
@@ -252,7 +255,8 @@ func sameValue(a, b Value) bool {
 	}
 	switch x := a.(type) {
 	case *term.Term:
-		return false // hash-consed: identical terms are pointer-equal
+		y, ok := b.(*term.Term)
+		return ok && term.Same(x, y)
 	case *Ptr:
 		y, ok := b.(*Ptr)
 		return ok && samePtr(x, y)
@@ -289,7 +293,7 @@ func sameValue(a, b Value) bool {
 		return true
 	case *SliceV:
 		y, ok := b.(*SliceV)
-		return ok && samePtr(x.Base, y.Base) && x.Off == y.Off && x.Len == y.Len && x.Cap == y.Cap
+		return ok && samePtr(x.Base, y.Base) && term.Same(x.Off, y.Off) && term.Same(x.Len, y.Len) && term.Same(x.Cap, y.Cap)
 	case *StrV:
 		y, ok := b.(*StrV)
 		if !ok {
